@@ -1,1 +1,88 @@
-// contract harnesses for trust-runtime/src/lib (included by the verification hook)
+// Contract harnesses for pub items reached from the crate root (hooked at the end of lib.rs).
+//
+// value::partial_access  (C07): `x.%Xn / .%Bn / .%Wn / .%Dn` read and write exactly the addressed bits:
+//   write(t, k, p)  ==  (t with the k-th piece replaced by p), every other bit of t unchanged;
+//   read(write(t, k, p), k) == p;  an index outside the target is IndexOutOfBounds, never a panic.
+
+use crate::value::{read_partial_access, write_partial_access, PartialAccess, PartialAccessError, Value};
+
+macro_rules! partial_harness {
+    ($name:ident, $tvar:ident, $tty:ty, $acc:ident, $pvar:ident, $pty:ty, $bits:expr, $count:expr) => {
+        #[kani::proof]
+        fn $name() {
+            let t: $tty = kani::any();
+            let p: $pty = kani::any();
+            let k: u8 = kani::any();
+            let w = write_partial_access(Value::$tvar(t), PartialAccess::$acc(k), Value::$pvar(p));
+            if (k as u32) < $count {
+                let shift = (k as u32) * $bits;
+                let piece_mask: $tty = ((!0 as $tty) >> ((<$tty>::BITS - $bits) as u32)) << shift;
+                let expected: $tty = (t & !piece_mask) | (((p as u64) as $tty) << shift);
+                let ok_w = matches!(&w, Ok(Value::$tvar(x)) if *x == expected);
+                assert!(ok_w, "a partial write replaces exactly the addressed piece; every other bit is unchanged");
+                let r = read_partial_access(&Value::$tvar(expected), PartialAccess::$acc(k));
+                let ok_r = matches!(&r, Ok(Value::$pvar(x)) if (*x as u64) == (p as u64));
+                std::mem::forget(r);
+                assert!(ok_r, "reading the piece back returns the written value");
+            } else {
+                let refused = matches!(&w, Err(PartialAccessError::IndexOutOfBounds { .. }));
+                assert!(refused, "an index outside the target is refused");
+            }
+            kani::cover!((k as u32) == $count - 1 && t != 0);
+            kani::cover!((k as u32) >= $count);
+            std::mem::forget(w);
+        }
+    };
+}
+
+fn b2u(b: bool) -> u64 { b as u64 }
+
+// bit access: the piece is a BOOL
+macro_rules! partial_bit_harness {
+    ($name:ident, $tvar:ident, $tty:ty) => {
+        #[kani::proof]
+        fn $name() {
+            let t: $tty = kani::any();
+            let p: bool = kani::any();
+            let k: u8 = kani::any();
+            let w = write_partial_access(Value::$tvar(t), PartialAccess::Bit(k), Value::Bool(p));
+            if (k as u32) < <$tty>::BITS {
+                let m: $tty = (1 as $tty) << (k as u32);
+                let expected: $tty = if p { t | m } else { t & !m };
+                let ok_w = matches!(&w, Ok(Value::$tvar(x)) if *x == expected);
+                assert!(ok_w, "a bit write changes exactly bit n");
+                let r = read_partial_access(&Value::$tvar(expected), PartialAccess::Bit(k));
+                let ok_r = matches!(&r, Ok(Value::Bool(x)) if *x == p);
+                std::mem::forget(r);
+                assert!(ok_r);
+            } else {
+                assert!(matches!(&w, Err(PartialAccessError::IndexOutOfBounds { .. })));
+            }
+            kani::cover!((k as u32) == <$tty>::BITS - 1 && p);
+            kani::cover!((k as u32) >= <$tty>::BITS);
+            let _ = b2u(p);
+            std::mem::forget(w);
+        }
+    };
+}
+
+// @unit id=partial.bit.byte props=C07 tier=quick kind=proof fn=write_partial_access,read_partial_access
+partial_bit_harness!(partial_bit_byte, Byte, u8);
+// @unit id=partial.bit.word props=C07 tier=thorough kind=proof fn=write_partial_access,read_partial_access
+partial_bit_harness!(partial_bit_word, Word, u16);
+// @unit id=partial.bit.dword props=C07 tier=quick kind=proof fn=write_partial_access,read_partial_access
+partial_bit_harness!(partial_bit_dword, DWord, u32);
+// @unit id=partial.bit.lword props=C07 tier=thorough kind=proof fn=write_partial_access,read_partial_access
+partial_bit_harness!(partial_bit_lword, LWord, u64);
+// @unit id=partial.byte.word props=C07 tier=quick kind=proof fn=write_partial_access,read_partial_access
+partial_harness!(partial_byte_word, Word, u16, Byte, Byte, u8, 8, 2);
+// @unit id=partial.byte.dword props=C07 tier=quick kind=proof fn=write_partial_access,read_partial_access
+partial_harness!(partial_byte_dword, DWord, u32, Byte, Byte, u8, 8, 4);
+// @unit id=partial.byte.lword props=C07 tier=thorough kind=proof fn=write_partial_access,read_partial_access
+partial_harness!(partial_byte_lword, LWord, u64, Byte, Byte, u8, 8, 8);
+// @unit id=partial.word.dword props=C07 tier=quick kind=proof fn=write_partial_access,read_partial_access
+partial_harness!(partial_word_dword, DWord, u32, Word, Word, u16, 16, 2);
+// @unit id=partial.word.lword props=C07 tier=quick kind=proof fn=write_partial_access,read_partial_access
+partial_harness!(partial_word_lword, LWord, u64, Word, Word, u16, 16, 4);
+// @unit id=partial.dword.lword props=C07 tier=quick kind=proof fn=write_partial_access,read_partial_access
+partial_harness!(partial_dword_lword, LWord, u64, DWord, DWord, u32, 32, 2);
